@@ -1,4 +1,4 @@
-(* C19 — proofs about the abstract admission model (all operation sequences, by induction over op lists). *)
+(* C19 — proofs about the abstract acceptance model (all operation sequences, by induction over op lists). *)
 From Coq Require Import NArith List Bool Lia ZifyN ZifyBool.
 From Slock Require Import Gen.GenClient Client.Prims.
 Import ListNotations.
@@ -86,7 +86,7 @@ Proof.
     apply N.leb_le in HA1, HA2; lia.
 Qed.
 
-(* the code's explicit unlimited branch: at >= 0xffff outstanding holds, two 0xffff-Counts are still admitted *)
+(* the code's explicit unlimited branch: at >= 0xffff outstanding holds, two 0xffff-Counts are still accepted *)
 Lemma admissible_unlimited_branch : forall l, 0xffff <= l -> l < 0x7fffffff -> admissible l 0xffff 0xffff = true.
 Proof.
   intros l H1 H2. unfold admissible.
@@ -313,7 +313,7 @@ Proof.
 Qed.
 
 (* with a writer among the holds every rw request of a non-holder is refused by doLock *)
-Lemma writer_blocks_admission : forall c, c = rwlock_writer_count \/ c = rwlock_reader_count -> admissible 1 rwlock_writer_count c = false.
+Lemma writer_blocks_acceptance : forall c, c = rwlock_writer_count \/ c = rwlock_reader_count -> admissible 1 rwlock_writer_count c = false.
 Proof. intros c [->| ->]; reflexivity. Qed.
 
 Lemma rw_try_lock_holder_refused : forall s r h, depth1 s -> find (r_id r) s = Some h -> r_rcount r = 0 -> r_update r = false ->
@@ -340,14 +340,14 @@ Proof.
       { intros h Hin Hcw. specialize (Hw h Hin Hcw). subst s.
         assert (h_depth h = 1) by (inversion Hd; auto).
         cbn [locked cur_count] in Ha. rewrite H, Hcw in Ha. replace (1 + 0) with 1 in Ha by reflexivity.
-        rewrite writer_blocks_admission in Ha; [discriminate | exact Hcnt]. }
+        rewrite writer_blocks_acceptance in Ha; [discriminate | exact Hcnt]. }
       repeat split.
       * apply Forall_app; split; auto.
       * apply Forall_app; split; auto.
       * intros h Hin Hcw. apply in_app_or in Hin. destruct Hin as [Hin|Hin].
         -- exfalso; eapply Hnw; eauto.
         -- destruct Hin as [<-|[]]. cbn [h_count] in Hcw.
-           (* the newcomer is a writer: Count 0 is admitted only on a free key *)
+           (* the newcomer is a writer: Count 0 is accepted only on a free key *)
            rewrite Hcw in Ha. change rwlock_writer_count with 0 in Ha. rewrite admissible_count0 in Ha.
            apply N.eqb_eq in Ha. apply locked_zero_nil in Ha; [subst s; reflexivity|].
            eapply Forall_impl; [|exact Hd]. cbn; intros; lia.
@@ -370,7 +370,7 @@ Theorem rwlock_writer_alone : forall ops h, Forall rw_op ops ->
 Proof. intros ops h Hf Hin Hc. destruct (rw_run ops [] rwinv_nil Hf) as (_ & _ & Hw). auto. Qed.
 
 (* a writer is granted only when nothing at all is held *)
-Theorem rwlock_writer_admitted_only_when_free : forall ops r, Forall rw_op ops -> writer_req r ->
+Theorem rwlock_writer_accepted_only_when_free : forall ops r, Forall rw_op ops -> writer_req r ->
   snd (try_lock (run [] ops) r) = Granted -> run [] ops = [].
 Proof.
   intros ops r Hf Hwr Hg. destruct (rw_run ops [] rwinv_nil Hf) as (Hd & _ & _).
@@ -397,10 +397,10 @@ Proof.
   - unfold try_lock. rewrite Hfd. rewrite Hw in *.
     assert (h_depth h = 1) by (inversion Hd; auto).
     cbn [locked cur_count]. rewrite H, Hc. replace (1 + 0) with 1 by reflexivity.
-    change (1 =? 0) with false. cbn [negb andb]. rewrite writer_blocks_admission; auto.
+    change (1 =? 0) with false. cbn [negb andb]. rewrite writer_blocks_acceptance; auto.
 Qed.
 
-(* readers are admitted together, as long as no writer holds and fewer than 0xffff holds are outstanding *)
+(* readers are accepted together, as long as no writer holds and fewer than 0xffff holds are outstanding *)
 Theorem rwlock_readers_share : forall ops r, Forall rw_op ops ->
   (forall h, In h (run [] ops) -> h_count h = rwlock_reader_count) -> locked (run [] ops) < 0xffff ->
   reader_req r -> find (r_id r) (run [] ops) = None -> r_wait_unlock r = false ->
@@ -636,7 +636,7 @@ Definition event_wait_clearmode_req (t : N) (r : req) : Prop :=
 (* Event.Wait, both modes.  A granted Wait never leaves a hold behind.
    default-set mode  (cleared = the event lock holds the key): a Wait of a non-holder is granted only on a free key.
    default-clear mode (set = the event lock holds the key): a Wait of a non-holder is granted only on a held key. *)
-Theorem event_wait_admission : forall s r t, find (r_id r) s = None ->
+Theorem event_wait_acceptance : forall s r t, find (r_id r) s = None ->
   (event_wait_setmode_req t r -> fst (try_lock s r) = s /\ (snd (try_lock s r) = Granted -> locked s = 0)) /\
   (event_wait_clearmode_req t r -> fst (try_lock s r) = s /\ (snd (try_lock s r) = Granted -> locked s <> 0)).
 Proof.
@@ -657,25 +657,25 @@ Qed.
 (* ------------------------------------------------------------------ PriorityLock hand-over: the newcomer window
    LockDB.Lock forces `waited := false` whenever locked = 0 and the request does not carry the wait-when-unlock flag
    (db.go:2163-2176).  Between an UnLock releasing the shard mutex and wakeUpWaitLocks re-taking it, locked = 0 while
-   waiters are still queued (lockManager.waited = true): a newcomer is then admitted whatever its priority.
+   waiters are still queued (lockManager.waited = true): a newcomer is then accepted whatever its priority.
    Stated for both values of the regenerated switch (so the statement follows the source if the window is closed). *)
 Theorem priority_newcomer_window :
   (lock_newcomer_checks_wait_queue = false ->
      (* refutation of the hand-over clause: waiters queued, key momentarily free, newcomer NOT above the waiting maximum *)
-     newcomer_admitted 0 true false (prio_flag_of (prioritylock_timeout 5)) false true prioritylock_count prioritylock_count = true)
+     newcomer_accepted 0 true false (prio_flag_of (prioritylock_timeout 5)) false true prioritylock_count prioritylock_count = true)
   /\
   (lock_newcomer_checks_wait_queue = true ->
-     forall pf cur c, newcomer_admitted 0 true false pf false true cur c = false).
+     forall pf cur c, newcomer_accepted 0 true false pf false true cur c = false).
 Proof.
-  unfold newcomer_admitted. split; intros ->; [reflexivity|].
+  unfold newcomer_accepted. split; intros ->; [reflexivity|].
   intros pf cur c. cbn. rewrite andb_false_r. reflexivity.
 Qed.
 
-(* outside that window (key held) a newcomer that is not strictly above the waiting maximum is never admitted *)
+(* outside that window (key held) a newcomer that is not strictly above the waiting maximum is never accepted *)
 Lemma priority_newcomer_waits_when_held : forall l cur c pf hl, l <> 0 ->
-  newcomer_admitted l true false pf false hl cur c = false.
+  newcomer_accepted l true false pf false hl cur c = false.
 Proof.
-  intros l cur c pf hl Hl. unfold newcomer_admitted. destruct (N.eqb_spec l 0); [contradiction|].
+  intros l cur c pf hl Hl. unfold newcomer_accepted. destruct (N.eqb_spec l 0); [contradiction|].
   cbn. rewrite andb_false_r. reflexivity.
 Qed.
 
